@@ -344,13 +344,15 @@ class ImplicitFuncComp(ImplicitComponent):
             Value of input or state variable.
         """
         inps = inputs.values()
-        outs = outputs.values()
+        # states may be ordered differently in the function signature than their residuals (which
+        # determine the order of our outputs), so look them up by name
+        outs = dict(zip(self._var_rel_names['output'], outputs.values()))
 
         for name, meta in self._apply_nonlinear_func._inputs.items():
             if 'is_option' in meta:  # it's an option
                 yield self.options[name]
             elif 'resid' in meta:  # it's a state
-                yield next(outs)
+                yield outs[name]
             else:
                 yield next(inps)
 
@@ -403,17 +405,13 @@ class ImplicitFuncComp(ImplicitComponent):
         list
             Chunks in OpenMDAO jacobian order.
         """
-        inps = []
-        ordered_chunks = []
+        chunks = {}
         chunk_iter = iter(col_chunks)
-        for meta in self._apply_nonlinear_func._inputs.values():
-            if 'is_option' in meta:  # it's an option
-                pass  # skip it (don't include in jacobian)
-            elif 'resid' in meta:  # it's a state
-                ordered_chunks.append(next(chunk_iter))
-            else:
-                inps.append(next(chunk_iter))
-        return ordered_chunks + inps
+        for name, meta in self._apply_nonlinear_func._inputs.items():
+            if 'is_option' not in meta:  # options are not included in the jacobian
+                chunks[name] = next(chunk_iter)
+        return [chunks[n] for n in chain(self._var_rel_names['output'],
+                                         self._var_rel_names['input'])]
 
     def _reorder_cols(self, arr, coloring=None):
         """
